@@ -90,11 +90,11 @@ M = [
     ("C15", "exclusion_also_needs_prefix_match", RM, '                if "!" in c:\n                    countries_to_skip.append(c.replace("!", ""))', '                if c.startswith("!A") or c.startswith("!B"):\n                    countries_to_skip.append(c.replace("!", ""))'),
     ("C16", "round2_band_too_tight", OPT, "            lower_bound = 0.99999 * min_consumption\n            upper_bound = 1.00001 * min_consumption", "            lower_bound = 1.0000001 * min_consumption\n            upper_bound = 1.0000002 * min_consumption"),
     ("C16", "preset_value_renamed_in_dispatcher", RS, '        elif scenario_option_copy["shutoff"] == "long_delayed_shutoff":', '        elif scenario_option_copy["shutoff"] == "long_shutoff":'),
-    ("C17", "validity_bound_moved", IU, "            if percentage > 1e5 or percentage < -100:", "            if percentage > 1e5 or percentage < -99:"),
+    ("C17", "validity_bound_moved", IU, "            if not (-100 <= percentage <= 1e5):", "            if not (-99 <= percentage <= 1e5):"),
     ("C17", "unit_factor_in_import_script", "src/import_scripts_no_food_trade/create_aquaculture_csv.py", 'df_aquaculture.columns = ["iso3", "country", "aq_kcals", "aq_fat", "aq_protein"]', 'df_aquaculture.columns = ["iso3", "country", "aq_kcals", "aq_fat", "aq_protein"]\ndf_aquaculture["aq_fat"] = df_aquaculture["aq_fat"] * 1.001'),
     ("C18", "priority_fish_after_meat", PAR, "            fish_consumption.append(\n                consume(\n                    interpreted_results_round1.fish_kcals_equivalent[month_index].kcals\n                )\n            )\n            meat_consumption.append(\n                consume(\n                    interpreted_results_round1.meat_kcals_equivalent[month_index].kcals\n                )\n            )", "            meat_consumption.append(\n                consume(\n                    interpreted_results_round1.meat_kcals_equivalent[month_index].kcals\n                )\n            )\n            fish_consumption.append(\n                consume(\n                    interpreted_results_round1.fish_kcals_equivalent[month_index].kcals\n                )\n            )"),
     ("C18", "fill_takes_from_first_surplus_leaves_rest", PAR, "                adjustment = min(-arr[neg_idx], arr[i])\n", "                adjustment = min(-arr[neg_idx], arr[i]) * 0.5\n"),
-    ("C18", "bump_uses_maximum", PAR, "        potential_feed_increase = np.minimum(feed + increase, max_feed) - feed", "        potential_feed_increase = np.maximum(feed + increase, max_feed) - feed"),
+    ("C18", "bump_uses_maximum", PAR, "            0, np.minimum(feed + increase, max_feed) - feed\n", "            0, np.maximum(feed + increase, max_feed) - feed\n"),
     ("C18", "retimed_meat_total_not_preserved", PAR, "        new_round_2_meat_kcals = round_2_meat_kcals + adjustment_to_round2\n", "        new_round_2_meat_kcals = round_2_meat_kcals + adjustment_to_round2 * 0.9\n"),
 ]
 
